@@ -28,14 +28,18 @@ def total(vals):
     return t
 
 
-def ref_imputer_mode(names, model, loss, log, data):
-    """Reference for explain_many from its event log.  data = [(x, y)] the explained observations."""
+def ref_imputer_mode(names, model, loss, log, data, chains=True):
+    """Reference for explain_many from its event log.  data = [(x, y)] the explained observations.
+    chains=False: the imputer is the explainer's own (no callback traffic of it is logged): only the batch evaluation
+    (= the explained data) and the efficiency are derived."""
     batches = [e for e in log if e[0] == "model_batch"]
     if len(batches) != 1:
         raise Bad("batch-evaluation", f"{len(batches)} batch evaluations of the model, expected 1")
     if not (batches[0][1] == [x for x, _ in data]):
         raise Bad("explained-data", f"batch evaluation got {batches[0][1]!r}, explained data is {[x for x, _ in data]!r}")
     mp = mean_out([model.one(x) for x, _ in data])
+    if not chains:
+        return None, total(loss.one(y, mp) - loss.one(y, model.one(x)) for x, y in data) / len(data), []
     groups = [e for e in log if e[0] == "impute.ret"]
     calls = [e for e in log if e[0] == "impute.call"]
     d = len(names)
@@ -130,12 +134,15 @@ def main(run):
                 "schedule as an offline trace check over random force_explain / update_storage / interval_length / "
                 "storage_length sequences (recompute iff ordinal % interval_length == 0 or forced; otherwise zero model and loss "
                 "evaluations and an unchanged result; recompute over exactly the last storage_length stored observations in "
-                "order); evaluations = explained calls judged; non-trivial = calls with >= 2 distinct non-zero values")
+                "order; also explainers built WITHOUT a storage argument (the default window of storage_length observations), with "
+                "interval_length > storage_length in half of them, with the default imputer (window + efficiency judged) or a "
+                "DefaultImputer proxy (chains judged, too)); evaluations = explained calls judged; non-trivial = calls with >= 2 distinct non-zero values")
     run.assumptions = ["loss proxy accepts positional and keyword calls (the call convention belongs to C15)",
                        "storage non-empty at a recompute; original mode: explained names cover every feature the model reads"]
     run.require("ixai/explainer/sage/batch.py:BatchSage.explain_many",
                 "ixai/explainer/sage/batch.py:BatchSage.explain_many_original",
                 "ixai/explainer/sage/interval.py:IntervalSage.explain_one")
+    run.require_count("interval-default-storage-configs", "interval-default-storage-recomputes-interval-longer-than-window")
     rnd = random.Random(run.shard_seed)
     # ---------------- batch modes
     for i in range(N_BATCH[run.tier]):
@@ -258,12 +265,34 @@ def main(run):
         seed = rnd.randrange(2 ** 31)
         random.seed(seed)
         np.random.seed(seed)
-        st = storage_proxy(IntervalStorage, clock)(size=sl, store_targets=True)
-        imp = ImputerProxy(MarginalImputer(model, "joint", st), clock)
-        replay = {"interval_length": il, "storage_length": sl, "d": d, "n_inner": n_inner, "seed": seed, "calls": []}
+        # a third of the explainers is built WITHOUT a storage argument: the explainer's own window of storage_length
+        # observations; interval_length and storage_length are independent parameters (in half of these configurations the
+        # interval is longer than the window, so that whole intervals never fit)
+        own_window = i % 3 == 1
+        imp_kind = "marginal-joint-on-the-storage"
+        if own_window:
+            il, sl = rnd.choice([1, 2, 3, 7, 12]), rnd.choice([1, 2, 5, 9])
+            if rnd.random() < 0.5:
+                sl = rnd.choice([1, 2, 3, 5])
+                il = sl + rnd.choice([1, 2, 4, 9])
+            imp_kind = rnd.choice(["none", "default-imputer"])
+            run.count("interval-default-storage-configs")
+            if il > sl:
+                run.count("interval-default-storage-configs-interval-longer-than-window")
+        replay = {"interval_length": il, "storage_length": sl, "d": d, "n_inner": n_inner, "seed": seed,
+                  "storage_argument": not own_window, "imputer": imp_kind, "calls": []}
         try:
-            e = IntervalSage(model, names, loss, n_inner_samples=n_inner, interval_length=il, storage_length=sl,
-                             storage=st, imputer=imp)
+            if not own_window:
+                st = storage_proxy(IntervalStorage, clock)(size=sl, store_targets=True)
+                imp = ImputerProxy(MarginalImputer(model, "joint", st), clock)
+                e = IntervalSage(model, names, loss, n_inner_samples=n_inner, interval_length=il, storage_length=sl,
+                                 storage=st, imputer=imp)
+            elif imp_kind == "none":
+                e = IntervalSage(model, names, loss, n_inner_samples=n_inner, interval_length=il, storage_length=sl)
+            else:
+                from ixai.imputer import DefaultImputer
+                imp = ImputerProxy(DefaultImputer(model, {f: -(j + 1) for j, f in enumerate(names)}), clock)
+                e = IntervalSage(model, names, loss, n_inner_samples=n_inner, interval_length=il, storage_length=sl, imputer=imp)
         except TypeError as ex:
             run.other_error(f"C15:{type(ex).__name__}")
             continue
@@ -284,7 +313,7 @@ def main(run):
                 force_arg = rnd.choice([force, np.bool_(force), int(force)])
                 upd_arg = rnd.choice([upd, np.bool_(upd), int(upd)])
                 replay["calls"].append({"ordinal": c, "force_explain": repr(force_arg), "update_storage": repr(upd_arg)})
-                if (force or c % il == 0) and c > lead and i % 5 == 2 and rnd.random() < 0.3:
+                if (force or c % il == 0) and c > lead and i % 5 == 2 and not own_window and rnd.random() < 0.3:
                     # HISTORY: a callback fails during a recomputation, the caller catches the error and the stream goes on; the
                     # failed call keeps its ordinal (the schedule is stated in call ordinals), later calls are judged as usual
                     clock.fail_at_next = rnd.randrange(2, 6)
@@ -307,7 +336,8 @@ def main(run):
                 if upd:
                     stored.append((x, y))
                 ups = [ev for ev in log if ev[0] == "storage.update"]
-                if len(ups) != (1 if upd else 0) or (upd and not (ups[0][1] == x)):
+                # (the explainer's own storage is not observable at an update; its content is judged at every recomputation)
+                if not own_window and (len(ups) != (1 if upd else 0) or (upd and not (ups[0][1] == x))):
                     raise Bad("storage-update", f"call {c}: {len(ups)} storage updates with update_storage={upd}")
                 evals = [ev for ev in log if ev[0] in ("model", "model_batch", "loss", "impute.call")]
                 should = force or (c % il == 0)
@@ -321,11 +351,17 @@ def main(run):
                     window = stored[-sl:]
                     if not evals:
                         raise Bad("no-recompute", f"call {c} (interval {il}, forced={force}) did not recompute")
-                    per, eff, orders = ref_imputer_mode(names, model, loss, log, window)
+                    per, eff, orders = ref_imputer_mode(names, model, loss, log, window, chains=imp_kind != "none")
                     tot = total(ret.values())
+                    if set(ret.keys()) != set(names):
+                        raise Bad("keys", f"call {c}: result keys {list(ret)!r}")
                     if not (tot == eff):
                         raise Bad("efficiency", f"call {c}: sum {tot!r} != mean explained loss {eff!r} over window of {len(window)}")
-                    if not all(ret[f] == per[f] for f in names):
+                    if own_window:
+                        run.count("interval-default-storage-recomputes")
+                        if il > sl and len(stored) > sl:
+                            run.count("interval-default-storage-recomputes-interval-longer-than-window")
+                    if per is not None and not all(ret[f] == per[f] for f in names):
                         raise Bad("per-feature-average", f"call {c}: {ret!r} != {per!r}")
                     if len({v for v in ret.values() if v != 0}) >= 2:
                         run.nontriv(("interval", run.shard[0], i, c))
